@@ -163,7 +163,7 @@ theorem runLoop_clock2 (p : Prog) (hwf : WF3 p) :
     ∀ (fuel : Nat) (w w' : World) (s : SC.St) (r : Option Panic), w.prog = p → RC2 w s → InRange w →
       SCExec2 p (SC.init p) s →
       SCData2.Run2 p (data2 (SC.init p)) (w.events.reverse.map triple) (data2 s) →
-      okRun2 fuel w = true →
+      okRun fuel w = true →
       World.runLoop fuel w = (w', r) → RunOut2 p w' r := by
   intro fuel
   induction fuel with
@@ -175,7 +175,7 @@ theorem runLoop_clock2 (p : Prog) (hwf : WF3 p) :
   | succ fuel ih =>
     intro w w' s r hp hRC hrange hex hrun hok h
     unfold World.runLoop at h
-    unfold okRun2 at hok
+    unfold okRun at hok
     split at h
     · cases h
       exact ⟨s, hex, hRC, hrun⟩
@@ -198,12 +198,12 @@ theorem runLoop_clock2 (p : Prog) (hwf : WF3 p) :
             · exact (read_panics_iff_races2 hRC hin hop hc k).1 hstep
             · exact (write_panics_iff_races2 hRC hin hop hc k).1 hstep
       · next w1 hstep =>
-        have hok1 : okRun2 fuel w1 = true := by
+        have hok1 : okRun fuel w1 = true := by
           have := hok.2
           rw [hstep] at this
           exact this
-        have hr1 : InRange w1 := (step_sim2 hwf'.1 hRC.r hin hok.1.1 hstep).2
-        obtain ⟨hp1, hsim⟩ := step_clock2 hwf' hRC hin hact' hok.1.1 hok.1.2 hstep
+        have hr1 : InRange w1 := (step_sim2 hwf'.1 hRC.r hin hok.1 hstep).2
+        obtain ⟨hp1, hsim⟩ := step_clock2 hwf' hRC hin hact' hok.1 hstep
         rcases hsim with ⟨hRC1, hev⟩ | ⟨s1, hrs, hRC1, l, hl, hev⟩
         · exact ih w1 w' s r (hp1.trans hp) hRC1 hr1 hex (by rw [hev]; exact hrun) hok1 h
         · rw [hp] at hrs hl
